@@ -1,7 +1,7 @@
 """Per-property checks.  Each returns the process exit code (0 ok, 1 violation, 2 machinery broken)."""
 import os, sys, json, time, traceback
 from .core import (ModelError, Verdict, build_driver, run_tlc, SPEC, VERIF)
-from . import parsecheck
+from . import parsecheck, apicheck
 
 
 def seed_of():
@@ -108,7 +108,48 @@ def check_C07(tier, seed):
                          "release callback log = the specification's released/stored pointer sets, ASan clean")
 
 
-CHECKS = {"C14": check_C14, "C07": check_C07, "C12": check_C12, "C01": check_C01, "C06": check_C06, "C15": check_C15}
+PROPS_API = ["P_C09_TitlesUnique", "P_C09_AppendKeeps", "P_C09_RemoveKeepsOrder", "P_C10_FailNoEffect",
+             "P_C09_Modified", "P_C09_BadCallsFail", "P_C07_Ledger"]
+
+
+def tlc_api(v, cfgname):
+    res = run_tlc("MC_Api.tla", os.path.join("mc", cfgname))
+    v.add_tlc(cfgname, res, PROPS_API)
+    for e in res.errors:
+        if "Action property" in e or "is violated" in e:
+            v.violation("spec:%s:%s" % (cfgname, e[:80]), "TLC: %s in %s" % (e, cfgname), {"tlc_tail": res.raw_tail})
+    return res
+
+
+def check_C09(tier, seed):
+    v = Verdict("C09", tier, seed)
+    exe = build_driver("asan")
+    for c in (["api_quick.cfg", "api_nopre_quick.cfg"] if tier == "quick" else ["api_quick.cfg", "api_nopre_quick.cfg"]):
+        res = tlc_api(v, c)
+        apicheck.replay(v, exe, res, aspects={"tree", "freed", "balance"}, seed=seed, tag="C09")
+    v.cov["exhaustive"] = True
+    return v.finish(rule="state graph of the abstract store under ~55 call instances (setters, list set/append, bulk set, set-from-text, "
+                         "annotation, titled add, remove by index/title, section-relative calls, wrong type / index / name) explored to the "
+                         "depth bound; every transition (reachable state x call) is replayed after a shortest call path to its pre-state; "
+                         "return value and full tree compared after every call")
+
+
+def check_C10(tier, seed):
+    v = Verdict("C10", tier, seed)
+    exe = build_driver("asan")
+    for c in (["api_quick.cfg", "api_nopre_quick.cfg", "api_veto_quick.cfg"] if tier == "quick" else ["api_quick.cfg", "api_nopre_quick.cfg", "api_veto_quick.cfg"]):
+        res = tlc_api(v, c)
+        # keep only behaviours whose last call is refused: that is the call under test
+        res.behaviours = [b for b in res.behaviours if b["calls"][-1]["exp"]["ret"] == "fail"]
+        apicheck.replay(v, exe, res, aspects={"noeffect", "cb"}, seed=seed, tag="C10")
+    v.cov["exhaustive"] = True
+    return v.finish(rule="every reachable option state (pristine default, explicitly set, emptied, annotated, list of n, after parse) x every "
+                         "refusing call (bulk set with an unconvertible element at each position, vetoed by-name setter, wrong type, illegal "
+                         "index, existing title, missing section, unconvertible set-from-text); the driver's dump of the whole context "
+                         "(values, counts, annotation, RESET/MODIFIED bits) must be bit-for-bit identical before and after")
+
+
+CHECKS = {"C09": check_C09, "C10": check_C10, "C14": check_C14, "C07": check_C07, "C12": check_C12, "C01": check_C01, "C06": check_C06, "C15": check_C15}
 
 
 def main(argv):
